@@ -2,6 +2,7 @@ import StepModel.P21.Writer
 import StepModel.P21.ReaderLemmas11
 import StepModel.P21.ReaderLemmas14
 import StepModel.P21.ReaderLemmas17
+import StepModel.P21.ReaderLemmas18
 import StepModel.Generated.P21RWGen
 /-! # C01 — exchange files survive read-then-write: property theorems
 
@@ -1303,6 +1304,153 @@ theorem C01_read_file_redeclared_partial {F} (ops : FloatOps F) (lex : LexCfg) (
   · rw [hc]; simp [xs]
   · rw [hv]; simp [xs]
 
+/-! ### data sections that mix internally and externally mapped records -/
+
+/-- a record of a data section with the layout behind it: internally mapped `#id = NAME(…);` or externally mapped
+    `#id = ( PART(…) PART(…) … );` -/
+inductive AnyRec (F : Type) where
+  | simple (rg : Rec F × List Byte)
+  | complex (r : CRec F) (g : List Byte)
+
+/-- the instance pass 2 leaves for an externally mapped record: the parts pass 1 made, each with the values of its tokens -/
+def finCInst {F} (d : Dict) (r : CRec F) : MInst F :=
+  { mkCInst d r with parts := r.parts.foldl (fun ps c => setPart ps c.name c.vals) (mkCInst d r).parts, state := .complete }
+
+/-- the record as the loops of the two passes see it -/
+def AnyRec.item {F} (d : Dict) : AnyRec F → Item F
+  | .simple rg => { body := rg.1.text [], g := rg.2, id := rg.1.id, mkI := mkInst d rg, out := finInst rg, sev := .null }
+  | .complex r g => { body := r.text [], g := g, id := r.id, mkI := mkCInst d r, out := finCInst d r, sev := .null }
+
+/-- the records of the mixed file-level theorem: internally mapped ones as in `RecCoveredR` (redeclared attributes
+    allowed), externally mapped ones as in `C01_complex_record_both_passes_partial` -/
+def AnyRecCovered {F} (env : Env F) : AnyRec F → Prop
+  | .simple rg => RecCoveredR env rg
+  | .complex r g => r.Lex ∧ Seps g ∧
+      env.dict.complexSets.contains (sortNames ((r.parts.map (·.name)).filter (fun n => (env.dict.entity? n).isSome))) = true ∧
+      (∀ c ∈ r.parts, (env.dict.entity? c.name).isSome = true) ∧ ∀ c ∈ r.parts, CPartCovered env c
+
+theorem rec_text_append {F} (r : Rec F) (rest : List Byte) : r.text [] ++ rest = r.text rest := by
+  simp [Rec.text, Rec.t1, Rec.t2, Rec.t3, Rec.t4, List.append_assoc]
+
+theorem crec_text_append {F} (r : CRec F) (rest : List Byte) : r.text [] ++ rest = r.text rest := by
+  simp [CRec.text, List.append_assoc]
+
+theorem foldl_setPart_names {F} (cs : List (CPart F)) : ∀ ps : List (MPart F),
+    (cs.foldl (fun ps c => setPart ps c.name c.vals) ps).map (·.name) = ps.map (·.name) := by
+  induction cs with
+  | nil => intro ps; rfl
+  | cons c cs ih => intro ps; simp only [List.foldl_cons]; rw [ih, setPart_names]
+
+theorem errAfterI_null {F} : ∀ (ys : List (Item F)), (∀ y ∈ ys, y.sev = .null) → errAfterI .null ys = .null := by
+  intro ys
+  induction ys with
+  | nil => intro _; rfl
+  | cons y t ih =>
+    intro h
+    have hy := h y (by simp)
+    simp only [errAfterI, List.foldl_cons, hy] at ih ⊢
+    exact ih (fun z hz => h z (by simp [hz]))
+
+/-- **read (render p ℓ) = p at file level, internally and externally mapped records mixed** (`_partial`): the data
+    section is any sequence of records with pairwise different ids, each either an internally mapped record over the
+    kinds of `Covered` (redeclared attributes allowed, `RecCoveredR`) or an externally mapped record
+    `#id = ( PART(…) PART(…) … );` whose parts are known entities, whose sorted part names are a legal combination and
+    whose parts' parameter lists are over the kinds of `Covered` (`CPartCovered`; blanks - not comments - between the
+    parts), with any layout between the records; references go forward and backward and may name records of either
+    mapping (the lookup is the manager pass 1 has built from *all* records).  `ReadData1` creates one instance per
+    record (`CreateInstance` / `CreateSubSuperInstance`), `ReadData2` reads every parameter of every record and of every
+    part to the value its token denotes, the file's severity is NULL (p21read exits 0) and every instance is counted
+    valid.  The loops of both passes are proved over abstract records (ReaderLemmas18: `readDataSection_items`), so any
+    further record shape needs only its two record-level facts. -/
+theorem C01_read_file_mixed_partial {F} (ops : FloatOps F) (lex : LexCfg) (cfg : RWCfg) (d : Dict) (strict : Bool)
+    (hskip : cfg.skipInstanceSkipsComments = true) (hcri : lex.criSkipsComments = true) (hagg : cfg.aggrSkipsComments = true)
+    (hmc : cfg.missingCheckEverySecond = false) (hrep : cfg.complexReportsError = true)
+    (rs : List (AnyRec F)) (g0 sp gE after : List Byte) (hg0 : Seps g0) (hsp : sp.all isSpace = true) (hgE : Seps gE)
+    (hnd : (rs.map (fun r => (r.item d).id)).Nodup)
+    (hrec : ∀ r ∈ rs, AnyRecCovered { ops := ops, lex := lex, cfg := cfg, dict := d,
+                                       lookup := Mgr.lookup d ({ insts := rs.map (fun r => (r.item d).mkI) } : Mgr F) } r) :
+    ∃ res, readDataSection ops lex cfg d strict false
+        (g0 ++ renderItems (rs.map (AnyRec.item d)) (endsec sp (gE ++ (endIso ++ 59 :: after)))) = .ok res ∧
+      res.mgr.insts = rs.map (fun r => (r.item d).out) ∧ res.sev = .null ∧ exitStatus res.sev = 0 ∧
+      res.created = rs.length ∧ res.notCreated = 0 ∧ res.valid = rs.length ∧ res.invalid = 0 := by
+  let xs : List (Item F) := rs.map (AnyRec.item d)
+  have hmk : xs.map (·.mkI) = rs.map (fun r => (r.item d).mkI) := by simp [xs, List.map_map, Function.comp_def]
+  obtain ⟨res, hr, hm, hsev, hc, hnc, hv, hinv, _⟩ :=
+    readDataSection_items ops lex cfg hskip d strict sp _ hsp (tailOK_endIso gE hgE after) xs g0 hg0
+      (by
+        intro x hx
+        obtain ⟨r, hrm, rfl⟩ := List.mem_map.mp hx
+        cases r with
+        | simple rg =>
+          obtain ⟨hl, hg, e, he, habs, _, hcov⟩ := hrec _ hrm
+          have he' : d.entity? rg.1.name = some e := he
+          refine ⟨hg, rfl, ?_⟩
+          intro m hnone l c k hc h47 h92
+          obtain ⟨l', h⟩ := createInstance_rec cfg hskip d m rg.1 hl (fun q hq => covered_scan _ q (hcov q hq)) hnone e he' habs
+            l rg.2 hg c k hc h47 h92
+          refine ⟨l', ?_⟩
+          show createInstance cfg d m (G l (rg.1.text [] ++ (rg.2 ++ c :: k)) false) = _
+          rw [rec_text_append, h]
+          simp [AnyRec.item, mkInst, he']
+        | complex r g =>
+          obtain ⟨hl, hg, hlegal, _, _⟩ := hrec _ hrm
+          refine ⟨hg, rfl, ?_⟩
+          intro m hnone l c k hc h47 h92
+          obtain ⟨l', h⟩ := createInstance_crec cfg hskip d m r hl hnone hlegal l g hg c k hc h47 h92
+          refine ⟨l', ?_⟩
+          show createInstance cfg d m (G l (r.text [] ++ (g ++ c :: k)) false) = _
+          rw [crec_text_append]
+          exact h)
+      (by simpa [xs, List.map_map, Function.comp_def] using hnd)
+      (by
+        intro x hx
+        obtain ⟨r, hrm, rfl⟩ := List.mem_map.mp hx
+        rw [hmk]
+        cases r with
+        | simple rg =>
+          obtain ⟨hl, hg, e, he, habs, hal, hcov⟩ := hrec _ hrm
+          have hent' : d.entity? rg.1.name = some e := he
+          refine ⟨hg, rfl, rfl, by simp [keyOf, finInst, mkInst, AnyRec.item], ?_⟩
+          intro st l rest sk hfind hlk hs
+          have hs' : st.s = G l (rg.1.text rest) sk := by rw [← rec_text_append]; exact hs
+          have hrd : ∀ L, ∃ sk1, instSTEPread { ops := ops, lex := lex, cfg := cfg, dict := d, lookup := Mgr.lookup d st.mgr } strict
+              e.attrs (G L (40 :: (renderParams rg.1.ps ++ rg.1.t4 rest)) sk) =
+                .ok ⟨.null, rg.1.ps.map (·.v), G ((40 :: renderParams rg.1.ps).reverse ++ L) (rg.1.t4 rest) sk1, .null⟩ := by
+            intro L
+            obtain ⟨sk2, _, h⟩ := instSTEPread_aligned { ops := ops, lex := lex, cfg := cfg, dict := d, lookup := Mgr.lookup d st.mgr }
+              strict hmc e.attrs rg.1.ps hal hl.pne
+              (fun q hq => covered_rd _ strict hcri hagg q (by rw [hlk]; exact hcov q hq))
+              (fun q hq => covered_head_ne41 _ q (hcov q hq)) L sk (rg.1.t4 rest)
+            exact ⟨sk2, h⟩
+          obtain ⟨l', sk', h⟩ := readInstance_semi_anyflag ops lex cfg d strict st rg.1 hl l rest sk hs' (mkInst d (rg.1, rg.2)) hfind rfl rfl
+            { name := rg.1.name, vals := match d.entity? rg.1.name with | some e => defaults e.attrs | none => [] } rfl e hent'
+            .null (rg.1.ps.map (·.v)) .null hrd (by
+              have : decide (Sev.null.toInt ≤ Sev.warning.toInt) = false := by decide
+              rw [this, Bool.and_false])
+          refine ⟨l', sk', ?_⟩
+          rw [h]
+          simp [finInst, mkInst, stateOf, AnyRec.item]
+        | complex r g =>
+          obtain ⟨hl, hg, hlegal, hknown, hcov⟩ := hrec _ hrm
+          refine ⟨hg, rfl, rfl, ?_, ?_⟩
+          · show keyOf (finCInst d r) = keyOf (mkCInst d r)
+            simp only [keyOf, finCInst, foldl_setPart_names]
+          · intro st l rest sk hfind hlk hs
+            have hs' : st.s = G l (r.text rest) sk := by rw [← crec_text_append]; exact hs
+            exact (C01_complex_record_both_passes_partial ops lex cfg d strict hskip hcri hagg hrep r hl hlegal hknown).2 st hfind
+              (fun c hc => by rw [hlk]; exact hcov c hc) l rest sk hs')
+  have hall : errAfterI .null xs = .null :=
+    errAfterI_null xs (by
+      intro y hy
+      obtain ⟨r, _, rfl⟩ := List.mem_map.mp hy
+      cases r <;> rfl)
+  refine ⟨res, hr, ?_, ?_, ?_, ?_, hnc, ?_, hinv⟩
+  · rw [hm]; simp [xs, List.map_map, Function.comp_def]
+  · rw [hsev, hall]
+  · rw [hsev, hall]; rfl
+  · rw [hc]; simp [xs]
+  · rw [hv]; simp [xs]
+
 /-! ### the two halves composed, and their hypotheses on a concrete file -/
 
 /-- **the token the writer emits for a stored value denotes that value** (`storable_covered`, exported): for every stored
@@ -1447,6 +1595,77 @@ theorem C01_read_write_read_witness :
   exact C01_read_write_read_partial dblOps Generated.rwLexCfg Generated.rwCfg wDict false (by decide) (by decide) (by decide)
     (by decide) wRecs [10] [] [10] [10] (Seps.blanks _ (by decide)) (by decide) (Seps.blanks _ (by decide)) hnd hrec hst
 
+
+/-! #### the hypotheses of the mixed file-level theorem are satisfiable: `#1=A(5);` `#2=(A(7)C(#1));` -/
+def mDict : Dict :=
+  { entities := [{ name := "A", attrs := [wAttrI], ancestors := ["A"] }, { name := "C", attrs := [wAttrR], ancestors := ["C"] }],
+    selects := [], complexSets := [["A", "C"]] }
+def mPsA : List (Param Nat) :=
+  [{ a := wAttrI, v := .one (.atom (.int (denoteInteger [55]))), tok := [55], before := [], after := [] }]
+def mPsC : List (Param Nat) :=
+  [{ a := wAttrR, v := .one (.atom (.ref ((digitsVal [49] 0 : Nat) : Int))), tok := 35 :: [49], before := [], after := [] }]
+def mPartA : CPart Nat := { n0 := 65, ns := [], sA := [], body := renderParams mPsA, sB := [], vals := mPsA.map (·.v) }
+def mPartC : CPart Nat := { n0 := 67, ns := [], sA := [], body := renderParams mPsC, sB := [], vals := mPsC.map (·.v) }
+def mCRec : CRec Nat := { ds := [50], s1 := [], s2 := [], parts := [mPartA, mPartC], s4 := [] }
+def mRecs : List (AnyRec Nat) := [.simple wRecA, .complex mCRec [10]]
+def mEnv : Env Nat :=
+  { ops := dblOps, lex := Generated.rwLexCfg, cfg := Generated.rwCfg, dict := mDict,
+    lookup := Mgr.lookup mDict ({ insts := mRecs.map (fun r => (r.item mDict).mkI) } : Mgr Nat) }
+
+/-- the records of `#1=A(5);⏎#2=(A(7)C(#1));⏎` - an internally mapped record and an externally mapped one whose part `C`
+    refers back to the first - satisfy the hypotheses of `C01_read_file_mixed_partial` -/
+theorem C01_mixed_hypotheses_witness :
+    (mRecs.map (fun r => (r.item mDict).id)).Nodup ∧ ∀ r ∈ mRecs, AnyRecCovered mEnv r := by
+  have sepsNil : Seps ([] : List Byte) := Seps.blanks [] (by decide)
+  have sepsNl : Seps ([10] : List Byte) := Seps.blanks [10] (by decide)
+  refine ⟨by decide, ?_⟩
+  intro r hr
+  simp only [mRecs, List.mem_cons, List.not_mem_nil, or_false] at hr
+  rcases hr with rfl | rfl
+  · refine ⟨⟨by decide, by decide, by decide, sepsNil, sepsNil, sepsNil, sepsNil, by decide, by decide, by decide⟩, sepsNl,
+      { name := "A", attrs := [wAttrI], ancestors := ["A"] }, by decide, rfl,
+      AlignedA.keep wAttrI _ _ rfl AlignedA.nil, ?_⟩
+    intro q hq
+    simp only [wRecA, List.mem_cons, List.not_mem_nil, or_false] at hq
+    subst hq
+    exact Covered.integer wAttrI rfl rfl rfl [53] (by decide) (by decide) (by decide) [] [] sepsNil sepsNil
+  · refine ⟨⟨by decide, by decide, by decide, sepsNil, sepsNil, sepsNil, List.cons_ne_nil _ _, ?_⟩, sepsNl, by decide, ?_, ?_⟩
+    · intro c hc
+      simp only [mCRec, List.mem_cons, List.not_mem_nil, or_false] at hc
+      rcases hc with rfl | rfl
+      · exact ⟨by decide, by decide, by decide, by decide, [55], rfl,
+          Bal.plain 55 [] (by decide) (by decide) (by decide) Bal.nil⟩
+      · exact ⟨by decide, by decide, by decide, by decide, [35, 49], rfl,
+          Bal.plain 35 _ (by decide) (by decide) (by decide) (Bal.plain 49 [] (by decide) (by decide) (by decide) Bal.nil)⟩
+    · intro c hc
+      simp only [mCRec, List.mem_cons, List.not_mem_nil, or_false] at hc
+      rcases hc with rfl | rfl <;> decide
+    · intro c hc
+      simp only [mCRec, List.mem_cons, List.not_mem_nil, or_false] at hc
+      rcases hc with rfl | rfl
+      · refine CPartCovered.params 65 [] [] [] (by decide) (by decide) (by decide) (by decide)
+          { name := "A", attrs := [wAttrI], ancestors := ["A"] } (by decide) mPsA (List.cons_ne_nil _ _) rfl ?_
+        intro q hq
+        simp only [mPsA, List.mem_cons, List.not_mem_nil, or_false] at hq
+        subst hq
+        exact Covered.integer wAttrI rfl rfl rfl [55] (by decide) (by decide) (by decide) [] [] sepsNil sepsNil
+      · refine CPartCovered.params 67 [] [] [] (by decide) (by decide) (by decide) (by decide)
+          { name := "C", attrs := [wAttrR], ancestors := ["C"] } (by decide) mPsC (List.cons_ne_nil _ _) rfl ?_
+        intro q hq
+        simp only [mPsC, List.mem_cons, List.not_mem_nil, or_false] at hq
+        subst hq
+        exact Covered.ref wAttrR "A" rfl rfl rfl [49] (by decide) (by decide) (by decide) (by decide) [] [] sepsNil sepsNil
+
+/-- … and the theorem instantiated on it: both records are created and read, the externally mapped one with both parts -/
+theorem C01_read_file_mixed_witness :
+    ∃ res, readDataSection dblOps Generated.rwLexCfg Generated.rwCfg mDict false false
+        ([10] ++ renderItems (mRecs.map (AnyRec.item mDict)) (endsec [] ([10] ++ (endIso ++ 59 :: [10])))) = .ok res ∧
+      res.mgr.insts = mRecs.map (fun r => (r.item mDict).out) ∧ res.sev = .null ∧ res.created = 2 ∧ res.valid = 2 := by
+  obtain ⟨hnd, hrec⟩ := C01_mixed_hypotheses_witness
+  obtain ⟨res, h, hi, hs, _, hc, _, hv, _⟩ := C01_read_file_mixed_partial dblOps Generated.rwLexCfg Generated.rwCfg mDict false
+    (by decide) (by decide) (by decide) (by decide) (by decide) mRecs [10] [] [10] [10]
+    (Seps.blanks _ (by decide)) (by decide) (Seps.blanks _ (by decide)) hnd hrec
+  exact ⟨res, h, hi, hs, hc, hv⟩
 
 def exDict : Dict :=
   { entities := [{ name := "A", attrs := [{ name := "i", ty := .one .integer, optional := false },
